@@ -112,9 +112,12 @@ Definition build (load : bool) (s : ustate) : ustate * res unit :=
 
 Definition is_key_share (e : ext) : bool := match e with EKeyShare _ => true | _ => false end.
 Definition is_cookie (e : ext) : bool := match e with ECookie _ => true | _ => false end.
+(* len(hs.hello.pskIdentities) > 0: identities in the PRIVATE hello. They get there from a loaded session
+   (UtlsPreSharedKeyExtension with Session != nil); the identities of a FakePreSharedKeyExtension are copied
+   only when a session cache holds a session (u_pre_shared_key.go:346), which these connections never have. *)
 Definition has_psk_ids (e : ext) : bool :=
   match e with
-  | EUtlsPreSharedKey _ _ _ (_ :: _) _ | EFakePreSharedKey _ (_ :: _) _ => true
+  | EUtlsPreSharedKey true _ _ (_ :: _) _ => true
   | _ => false
   end.
 
